@@ -102,7 +102,8 @@ def run(ctx):
                     # outside ~Parameter the last colon separates: a clock time in the value is fine, the description has no colon
                     check("TIML", u, v, "descr", p, sec)
         # the documented special forms
-        for name, val in (("NAME", "VALUE"), ("LOC", "12-34-56W5M"), ("A B", "x y"), ("é", "1.5")):
+        for name, val in (("NAME", "VALUE"), ("LOC", "12-34-56W5M"), ("A B", "x y"), ("é", "1.5"), ("REMARK", "Depth ref: KB"),
+                          ("TIME", "13:45:00"), ("R", "a:b:c"), ("NOTE", "see 12:30 log: run 2")):
             for _ in range(4):
                 p = [rng.choice(PADS) for _ in range(4)]
                 line = p[0] + name + p[1] + ":" + p[2] + val + p[3]
